@@ -13,6 +13,9 @@ def main(prop, path):
     cases = []
     if "case" in r:
         cases.append((r.get("flavor", "sync"), r["case"]))
+    q = r.get("query", {}).get("query") if isinstance(r.get("query"), dict) else None
+    if isinstance(q, dict) and "case" in q:          # a q_check failure / disagreement that carries its case
+        cases.append((q.get("flavor", r.get("flavor", "sync")), q["case"]))
     for b in r.get("broken", []):
         if "case" in b:
             cases.append((b.get("flavor", "sync"), b["case"]))
@@ -25,7 +28,16 @@ def main(prop, path):
             st, obs = core._impl_worker((fl, case, 20))
             probs = props.run_oracles(prop, case, st, obs, fl, replay=True)
             print(f"[{fl}] impl status={st} monitor problems={json.dumps(probs)[:1500]}")
+            if probs:
+                rc = 1
             try:
+                if "agenda" in case:                     # C08 / C09: the runtime model, through driver_rt
+                    from . import c08
+                    ist, iout = c08.run_guarded(fl, case, 20)
+                    mr = c08.run_model_many(fl, [case])[0]
+                    if ist == "ok" and mr[0] == "ok":
+                        print(f"[{fl}] runtime model/impl difference: {json.dumps(c08.diff_run(iout, mr[1], case['horizon'] - c08.CUT), default=str)[:1500]}")
+                    continue
                 mr = core.run_model_many(fl, [case])[0]
                 if st == "ok" and mr[0] == "ok":
                     d = modelio.diff_obs(obs, mr[1], fl)
